@@ -459,6 +459,11 @@ class World:
                 # the library compares with absolute tolerances (1e-9 on points, 1e-6 on areas):
                 # beyond this size float rounding alone exceeds them (KF3)
                 self.stats.inc("probe:inverse_pair_skipped_large_coordinates")
+            elif step.get("stability"):
+                if prev is not None and prev[1] != ans[1]:
+                    raise Violation("answer-changed", "C10", idx,
+                                    f"{op}{_argstr(step)} answered {_ansstr(prev)} before an unrelated "
+                                    f"operation on other objects and {_ansstr(ans)} after it")
             elif prev is not None and prev[0] == "bool" and prev[1] != ans[1]:
                 raise Violation("inverse-pair-equality", "C09", idx,
                                 f"{op} answered {ans[2]!r}; before the transformation and its inverse "
@@ -878,7 +883,7 @@ def _ansstr(ans):
 
 
 def _argstr(step):
-    keys = [k for k in step if k not in ("op", "a", "b", "dst", "t1", "t2", "repeat", "drop", "same_answer_as", "needs", "expect", "force_expect", "force_t2", "fault", "kkey", "kakey", "kbkey", "noisy_point")]
+    keys = [k for k in step if k not in ("op", "a", "b", "dst", "t1", "t2", "repeat", "drop", "same_answer_as", "needs", "expect", "force_expect", "force_t2", "fault", "kkey", "kakey", "kbkey", "noisy_point", "stability")]
     return "(" + ", ".join(f"{k}={_argval(step[k])}" for k in keys) + ")"
 
 
